@@ -67,6 +67,12 @@ CHECKS['C13'] = ('§3 C13', 'R02b tail repair of the transaction log on reopen, 
                  'logs and what recovery restores (with lock handles), R13b recovery consumes every list its classification fills',
                  'MIR reachability under a phase assumption, writer/reader table agreement, field read/write sets')
 
+CHECKS['C14'] = ('§3 C14', 'R14a in every Vault operation on (requester, key) no sensitive call (cipher, blob store, store get/put/delete on a '
+                 'vault key, grant edge add/delete) is reachable unless an authorisation guard passed, at the operation\'s minimum level; '
+                 'R14d every access decision is preceded by the expired-grant sweep; R14b traversals enqueue only allow-listed edge '
+                 'types; R14c store keys, stored fields, audit records, errors and log events are reachable from secret names / values '
+                 'only through the obfuscator / cipher',
+                 'cut-reachability over guard outcome edges, taint slices with sanitizer cuts, caller-side guard summaries')
 CHECKS['C15'] = ('§3 C15', 'R15a precedence and associativity decided from the two binding-power tables, the documented level tables, the '
                  'token→operator map and the shape of both Pratt loops (a proof over a finite table), R15b every recursion cycle '
                  'reachable from the parse entry points passes a depth-guard function, R15c every statement kind is dispatched to an arm '
